@@ -448,7 +448,7 @@ Lemma gpt_dir proj pc loc d es :
     let ordered := ordered_of ord in
     let copy := eff_copy proj cp in
     let sub := map (fun x => (ename x, gpt proj (Some copy) (loc ++ [ename x]) x)) es in
-    let vs := map (visit_name proj pc loc es sub) (merged ordered (listing es)) in
+    let vs := map (visit_name proj (Some copy) loc es sub) (merged ordered (listing es)) in
     if v_err vs then RErr
     else RNode (Node d idx loc ordered copy (v_files vs) (v_subs vs))
   | None => RNone
@@ -557,27 +557,39 @@ Proof.
     apply str_eqb_eq in E. exfalso. apply Hz. rewrite <- E. now apply in_map.
 Qed.
 
+(* the output file of a Markdown page: "md" replaced by "html", whatever other dots the name has *)
+Lemma out_name_md n : is_md n = true -> out_name n = html_name n.
+Proof.
+  unfold is_md, out_name, html_name, stem, suffix. intros H. apply str_eqb_eq in H.
+  destruct (suffix_pos n) as [i|] eqn:SP; [|discriminate].
+  assert (L : length n = i + 3).
+  { rewrite <- (firstn_skipn i n) at 1. rewrite app_length, H. simpl.
+    unfold suffix_pos in SP. destruct (last_dot n 0 None) as [k|]; [|discriminate].
+    destruct ((0 <? k) && (S k <? length n)) eqn:B; [|discriminate]. injection SP as ->.
+    apply andb_true_iff in B as [_ B]. apply Nat.ltb_lt in B.
+    rewrite firstn_length_le by lia. reflexivity. }
+  rewrite L. now replace (i + 3 - 3) with i by lia.
+Qed.
+
 (* ------------------------------------------------------------------------------------------ *)
 (* C17_mirror *)
-Definition mirror_at (skip : list str -> bool) (proj : list str) (e : entry) : Prop :=
+Definition mirror_at (proj : list str) (e : entry) : Prop :=
   forall d es, e = Dir d es -> forall pc loc,
-    wf_tree e = true -> regular proj pc e = true -> plain_names e = true ->
-    gpt proj pc loc e <> RErr ->
-    pages (gpt proj pc loc e) = spec_pages skip proj loc e.
+    wf_tree e = true -> gpt proj pc loc e <> RErr ->
+    pages (gpt proj pc loc e) = spec_pages only_copied proj loc e.
 
-Lemma mirror_all skip proj e : mirror_at skip proj e.
+Lemma mirror_all proj e : mirror_at proj e.
 Proof.
-  induction e as [|d0 es0 IH] using entry_ind'; intros d es E pc loc Hwf Hreg Hplain Hne;
+  induction e as [|d0 es0 IH] using entry_ind'; intros d es E pc loc Hwf Hne;
     [discriminate|].
   injection E as -> ->.
   rewrite spec_pages_dir. rewrite gpt_dir in *.
-  simpl in Hreg.
   destruct (titled_index es) as [[ord cp]|] eqn:TI; [|reflexivity].
   cbv zeta in *.
   set (copy := eff_copy proj cp) in *.
   set (sub := map (fun x => (ename x, gpt proj (Some copy) (loc ++ [ename x]) x)) es) in *.
   set (M := merged (ordered_of ord) (listing es)) in *.
-  destruct (v_err (map (visit_name proj pc loc es sub) M)) eqn:VE; [congruence|].
+  destruct (v_err (map (visit_name proj (Some copy) loc es sub) M)) eqn:VE; [congruence|].
   apply wf_dir in Hwf as [Hnd Hwf].
   rewrite pages_node. f_equal.
   rewrite flat_map_v_subs, flat_map_map.
@@ -586,42 +598,32 @@ Proof.
       rewrite str_eqb_sym in Hn. now rewrite Hn, andb_false_r. }
   rewrite <- order_documented by auto. fold M.
   apply flat_map_ext_in. intros n Hn.
-  assert (Hv : visit_name proj pc loc es sub n <> VErr).
+  assert (Hv : visit_name proj (Some copy) loc es sub n <> VErr).
   { eapply v_err_false; eauto. now apply in_map. }
   assert (Hni : negb (str_eqb n idx) = true).
   { unfold M in Hn. rewrite order_documented in Hn by auto.
     apply filter_In in Hn as [_ Hn]. unfold not_idx in Hn. now rewrite str_eqb_sym. }
   rewrite Hni, andb_true_r.
   destruct (visible n) eqn:Hvis.
-  2:{ destruct (visit_name_invis proj pc loc es sub n Hvis) as [X|X]; [congruence|now rewrite X]. }
+  2:{ destruct (visit_name_invis proj (Some copy) loc es sub n Hvis) as [X|X]; [congruence|now rewrite X]. }
   rewrite visit_name_vis in * by auto.
   unfold sub in *. rewrite !assoc_map_find in *.
   destruct (find_entry n es) as [x|] eqn:FE; [|congruence].
   apply find_entry_name in FE as [En Hin]. simpl option_map in *.
-  assert (Hpx : plain_names x = true).
-  { simpl in Hplain. eapply forallb_forall in Hplain; eauto. }
-  pose proof (proj1 (forallb_forall _ _) Hreg x Hin) as Hrx.
   destruct x as [f t o c'|dn des]; simpl in En; subst.
   - (* a file *)
     simpl. rewrite (md_name_visible _ Hvis).
     destruct (is_md n) eqn:MD; [|reflexivity].
     destruct t; [|reflexivity]. simpl.
-    simpl in Hpx. rewrite (md_name_visible _ Hvis), MD in Hpx. simpl in Hpx.
-    apply str_eqb_eq in Hpx. unfold pg, src_path, out_path. simpl. now rewrite Hpx.
+    unfold pg, src_path, out_path. simpl. now rewrite (out_name_md n MD).
   - (* a sub-directory *)
-    apply andb_true_iff in Hrx as [Hr1 Hr2]. simpl ename in *.
-    destruct (has_titled_index (Dir n des)) eqn:HT.
-    + simpl in Hr1. apply andb_true_iff in Hr1 as [Hp Hc].
-      apply negb_true_iff in Hp, Hc. rewrite Hp in *. fold copy in Hc. rewrite Hc. simpl andb.
-      assert (G : gpt proj (Some copy) (loc ++ [n]) (Dir n des) <> RErr).
-      { intros G. rewrite G in Hv. congruence. }
-      rewrite Forall_forall in IH.
-      rewrite <- (IH _ Hin n des eq_refl (Some copy) (loc ++ [n])); auto.
-      destruct (gpt proj (Some copy) (loc ++ [n]) (Dir n des)); reflexivity.
-    + simpl in HT. destruct (titled_index des) eqn:TD; [discriminate|].
-      rewrite (titled_index_none_gpt _ _ _ _ _ TD).
-      rewrite spec_pages_dir, TD.
-      destruct (in_opt n pc); destruct (str_in n copy && skip (loc ++ [n])); reflexivity.
+    simpl ename in *. simpl in_opt in *. change (only_copied (loc ++ [n])) with true. rewrite andb_true_r.
+    fold copy. destruct (str_in n copy); [reflexivity|].
+    assert (G : gpt proj (Some copy) (loc ++ [n]) (Dir n des) <> RErr).
+    { intros G. rewrite G in Hv. congruence. }
+    rewrite Forall_forall in IH.
+    rewrite <- (IH _ Hin n des eq_refl (Some copy) (loc ++ [n])); auto.
+    destruct (gpt proj (Some copy) (loc ++ [n]) (Dir n des)); reflexivity.
 Qed.
 
 (* ------------------------------------------------------------------------------------------ *)
@@ -764,14 +766,29 @@ Proof.
   cbv zeta. destruct (v_err _); [discriminate|]. intros [= <-]. auto.
 Qed.
 
+(* [visit_name] for an arbitrary list in the place of the one consulted for skipping *)
+Definition yields_gen (proj : list str) (pcopy : option (list str)) (loc : list str)
+           (es : list entry) (copy : list str) (n : str) : bool :=
+  visible n &&
+  match find_entry n es with
+  | Some (Dir _ _ as x) =>
+    negb (in_opt n pcopy) &&
+    match gpt proj (Some copy) (loc ++ [n]) x with RNode _ => true | _ => false end
+  | Some (File _ titled _ _) => is_md n && titled
+  | None => false
+  end.
+Lemma yields_page_gen proj loc es copy n :
+  yields_page proj loc es copy n = yields_gen proj (Some copy) loc es copy n.
+Proof. reflexivity. Qed.
+
 Lemma visit_yields proj pc loc es copy n :
   match visit_name proj pc loc es
           (map (fun x => (ename x, gpt proj (Some copy) (loc ++ [ename x]) x)) es) n with
-  | VSub x => n_name x = n /\ yields_page proj pc loc es copy n = true
-  | _ => yields_page proj pc loc es copy n = false
+  | VSub x => n_name x = n /\ yields_gen proj pc loc es copy n = true
+  | _ => yields_gen proj pc loc es copy n = false
   end.
 Proof.
-  unfold yields_page.
+  unfold yields_gen.
   destruct (visible n) eqn:Hvis.
   2:{ destruct (visit_name_invis proj pc loc es
          (map (fun x => (ename x, gpt proj (Some copy) (loc ++ [ename x]) x)) es) n Hvis)
@@ -790,7 +807,7 @@ Lemma subs_names proj pc loc es copy l :
   map n_name
       (v_subs (map (visit_name proj pc loc es
                       (map (fun x => (ename x, gpt proj (Some copy) (loc ++ [ename x]) x)) es)) l))
-  = filter (yields_page proj pc loc es copy) l.
+  = filter (yields_gen proj pc loc es copy) l.
 Proof.
   induction l as [|n l IH]; simpl; auto.
   unfold v_subs in *. simpl. rewrite map_app, IH.
@@ -803,11 +820,12 @@ Theorem order_model proj pc loc d es nd :
   NoDup (map ename es) ->
   gpt proj pc loc (Dir d es) = RNode nd ->
   map n_name (n_subs nd)
-  = filter (yields_page proj pc loc es (n_copy nd)) (dedup (n_ordered nd ++ listing es)).
+  = filter (yields_page proj loc es (n_copy nd)) (dedup (n_ordered nd ++ listing es)).
 Proof.
   intros Hnd. rewrite gpt_dir. destruct (titled_index es) as [[ord cp]|]; [|discriminate].
   cbv zeta. destruct (v_err _); [discriminate|]. intros [= <-]. simpl.
-  rewrite subs_names. now rewrite merged_dedup by now apply listing_nodup.
+  rewrite subs_names. rewrite merged_dedup by now apply listing_nodup.
+  apply filter_ext. intros n. symmetry. apply yields_page_gen.
 Qed.
 
 (* ------------------------------------------------------------------------------------------ *)
@@ -908,12 +926,12 @@ Proof.
   set (es := b ++ D :: a). set (es' := b ++ D' :: a).
   set (sub := map (fun x => (ename x, gpt proj (Some copy) (loc ++ [ename x]) x)) es).
   set (sub' := map (fun x => (ename x, gpt proj (Some copy) (loc ++ [ename x]) x)) es').
-  assert (HV : forall n, visit_name proj pc loc es' sub' n
-                         = vmap (ename D) g (visit_name proj pc loc es sub n)).
+  assert (HV : forall n, visit_name proj (Some copy) loc es' sub' n
+                         = vmap (ename D) g (visit_name proj (Some copy) loc es sub n)).
   { intros n. destruct (visible n) eqn:Hvis.
-    2:{ rewrite (visit_name_invis_eq proj pc loc es sub es' sub' n Hvis).
-        destruct (visit_name_invis proj pc loc es sub n Hvis) as [-> | ->]; reflexivity. }
-    pose proof (visit_yields proj pc loc es copy n) as HY. fold sub in HY.
+    2:{ rewrite (visit_name_invis_eq proj (Some copy) loc es sub es' sub' n Hvis).
+        destruct (visit_name_invis proj (Some copy) loc es sub n Hvis) as [-> | ->]; reflexivity. }
+    pose proof (visit_yields proj (Some copy) loc es copy n) as HY. fold sub in HY.
     rewrite !visit_name_vis in * by auto.
     unfold sub, sub' in *. rewrite !assoc_map_find in *.
     destruct (str_eqb n (ename D)) eqn:En.
@@ -926,7 +944,7 @@ Proof.
       pose proof (find_entry_replace_same b (Dir dn des') a Hb) as F2. simpl ename in F2.
       rewrite F2.
       simpl option_map in *. simpl ename in *.
-      destruct (in_opt dn pc); [reflexivity|].
+      destruct (in_opt dn (Some copy)); [reflexivity|].
       rewrite Hg.
       destruct (gpt proj (Some copy) (loc ++ [dn]) (Dir dn des)) as [| |x] eqn:G; simpl; auto.
       apply gpt_node_fields in G as [G _]. rewrite G, str_eqb_refl. reflexivity.
@@ -938,7 +956,7 @@ Proof.
       + destruct (is_md n); [|reflexivity]. destruct t; [|reflexivity].
         simpl. destruct HY as [HY _]. simpl in HY.
         assert (str_eqb n (ename D) = false) as -> by now apply str_eqb_neq. reflexivity.
-      + destruct (in_opt n pc); [reflexivity|].
+      + destruct (in_opt n (Some copy)); [reflexivity|].
         destruct (gpt proj (Some copy) (loc ++ [ename (Dir dn des)]) (Dir dn des)) as [| |x];
           try reflexivity.
         simpl. destruct HY as [HY _]. rewrite HY.
@@ -989,12 +1007,12 @@ Proof.
   assert (Hsub : map (fun x => (ename x, gpt proj (Some copy) (loc ++ [ename x]) x)) es' = sub).
   { unfold sub, es, es'. rewrite !map_app. reflexivity. }
   rewrite Hsub.
-  assert (HV : forall n, visit_name proj pc loc es' sub n
-                         = vfilter f (visit_name proj pc loc es sub n)).
+  assert (HV : forall n, visit_name proj (Some copy) loc es' sub n
+                         = vfilter f (visit_name proj (Some copy) loc es sub n)).
   { intros n. destruct (visible n) eqn:Hvis.
-    2:{ rewrite (visit_name_invis_eq proj pc loc es sub es' sub n Hvis).
-        destruct (visit_name_invis proj pc loc es sub n Hvis) as [-> | ->]; reflexivity. }
-    pose proof (visit_yields proj pc loc es copy n) as HY. fold sub in HY.
+    2:{ rewrite (visit_name_invis_eq proj (Some copy) loc es sub es' sub n Hvis).
+        destruct (visit_name_invis proj (Some copy) loc es sub n Hvis) as [-> | ->]; reflexivity. }
+    pose proof (visit_yields proj (Some copy) loc es copy n) as HY. fold sub in HY.
     rewrite !visit_name_vis in * by auto.
     destruct (str_eqb n f) eqn:En.
     - apply str_eqb_eq in En. subst n. unfold es, es' in *.
@@ -1008,7 +1026,7 @@ Proof.
       destruct x as [f0 t o0 c0|dn des].
       + destruct (is_md n); [|reflexivity]. destruct t; [|reflexivity].
         simpl. assert (str_eqb n f = false) as -> by now apply str_eqb_neq. reflexivity.
-      + destruct (in_opt n pc); [reflexivity|].
+      + destruct (in_opt n (Some copy)); [reflexivity|].
         destruct (assoc_get n sub) as [[| |x]|]; try reflexivity.
         simpl. destruct HY as [HY _]. rewrite HY.
         assert (str_eqb n f = false) as -> by now apply str_eqb_neq. reflexivity. }
@@ -1213,14 +1231,16 @@ Proof. intros H. unfold v_files. apply in_flat_map. exists (VFile f). split; aut
 Lemma in_v_subs x vs : In (VSub x) vs -> In x (v_subs vs).
 Proof. intros H. unfold v_subs. apply in_flat_map. exists (VSub x). split; auto. now left. Qed.
 
-Lemma spec_copied_dir loc d es :
-  spec_copied loc (Dir d es) =
+Lemma spec_copied_dir proj loc d es :
+  spec_copied proj loc (Dir d es) =
   match titled_index es with
   | None => []
-  | Some _ =>
+  | Some (_, cp) =>
     map (fun x => loc ++ [ename x]) (filter plain_file es)
       ++ flat_map (fun x => match x with
-                            | Dir n _ => if visible n then spec_copied (loc ++ [n]) x else []
+                            | Dir n _ =>
+                              if visible n && negb (str_in n (eff_copy proj cp))
+                              then spec_copied proj (loc ++ [n]) x else []
                             | File _ _ _ _ => []
                             end) es
   end.
@@ -1232,22 +1252,22 @@ Proof. reflexivity. Qed.
 
 Definition copied_at (proj : list str) (e : entry) : Prop :=
   forall d es, e = Dir d es -> forall pc loc,
-    wf_tree e = true -> regular proj pc e = true -> gpt proj pc loc e <> RErr ->
-    forall p, In p (spec_copied loc e) ->
+    wf_tree e = true -> gpt proj pc loc e <> RErr ->
+    forall p, In p (spec_copied proj loc e) ->
     exists n f, In n (res_nodes (gpt proj pc loc e)) /\ In f (n_files n) /\ p = n_loc n ++ [f].
 
 Lemma copied_all proj e : copied_at proj e.
 Proof.
-  induction e as [|d0 es0 IH] using entry_ind'; intros d es E pc loc Hwf Hreg Hne p Hp;
+  induction e as [|d0 es0 IH] using entry_ind'; intros d es E pc loc Hwf Hne p Hp;
     [discriminate|].
   injection E as -> ->.
-  rewrite spec_copied_dir in Hp. rewrite gpt_dir in *. simpl in Hreg.
+  rewrite spec_copied_dir in Hp. rewrite gpt_dir in *.
   destruct (titled_index es) as [[ord cp]|] eqn:TI; [|destruct Hp].
   cbv zeta in *.
   set (copy := eff_copy proj cp) in *.
   set (sub := map (fun x => (ename x, gpt proj (Some copy) (loc ++ [ename x]) x)) es) in *.
   set (M := merged (ordered_of ord) (listing es)) in *.
-  destruct (v_err (map (visit_name proj pc loc es sub) M)) eqn:VE; [congruence|].
+  destruct (v_err (map (visit_name proj (Some copy) loc es sub) M)) eqn:VE; [congruence|].
   apply wf_dir in Hwf as [Hnd Hwf].
   unfold res_nodes. rewrite preorder_node.
   apply in_app_iff in Hp as [Hp|Hp].
@@ -1266,29 +1286,23 @@ Proof.
   - (* inside a sub-directory *)
     apply in_flat_map in Hp as (x & Hin & Hp).
     destruct x as [|n des]; [destruct Hp|].
-    destruct (visible n) eqn:Hvis; [|destruct Hp].
-    assert (TD : has_titled_index (Dir n des) = true).
-    { simpl. rewrite spec_copied_dir in Hp. destruct (titled_index des); auto; destruct Hp. }
-    pose proof (proj1 (forallb_forall _ _) Hreg _ Hin) as Hrx. simpl in Hrx.
-    change (match titled_index des with Some _ => true | None => false end)
-      with (has_titled_index (Dir n des)) in Hrx.
-    rewrite TD in Hrx. simpl in Hrx.
-    apply andb_true_iff in Hrx as [Hr1 Hr2]. apply andb_true_iff in Hr1 as [Hpc _].
-    apply negb_true_iff in Hpc.
+    destruct (visible n && negb (str_in n copy)) eqn:C; [|destruct Hp].
+    apply andb_true_iff in C as [Hvis Hpc]. apply negb_true_iff in Hpc.
     pose proof (find_entry_in es _ Hnd Hin) as FE. simpl in FE.
     assert (Hni : n <> idx).
     { intros ->. unfold titled_index in TI. rewrite FE in TI. discriminate. }
     assert (HM : In n M).
     { apply in_merged; auto. change n with (ename (Dir n des)). now apply in_map. }
-    assert (HV : In (visit_name proj pc loc es sub n) (map (visit_name proj pc loc es sub) M))
+    assert (HV : In (visit_name proj (Some copy) loc es sub n)
+                    (map (visit_name proj (Some copy) loc es sub) M))
       by now apply in_map.
     pose proof (v_err_false _ _ VE HV) as Hv.
-    rewrite visit_name_vis in HV, Hv by auto. rewrite FE, Hpc in HV, Hv.
+    rewrite visit_name_vis in HV, Hv by auto. simpl in_opt in HV, Hv. rewrite FE, Hpc in HV, Hv.
     unfold sub in HV, Hv. rewrite assoc_map_find, FE in HV, Hv. simpl in HV, Hv.
     rewrite Forall_forall in IH.
     assert (G : gpt proj (Some copy) (loc ++ [n]) (Dir n des) <> RErr).
     { intros G. rewrite G in Hv. congruence. }
-    destruct (IH _ Hin n des eq_refl (Some copy) (loc ++ [n]) (Hwf _ Hin) Hr2 G p Hp)
+    destruct (IH _ Hin n des eq_refl (Some copy) (loc ++ [n]) (Hwf _ Hin) G p Hp)
       as (nd & f & Hnd' & Hf & ->).
     exists nd, f. split; [|auto].
     destruct (gpt proj (Some copy) (loc ++ [n]) (Dir n des)) as [| |ndx];
@@ -1299,14 +1313,14 @@ Qed.
 (* ------------------------------------------------------------------------------------------ *)
 (* C17_copy_subdir: which sub-directories are skipped *)
 
-(* as coded: a sub-directory is skipped exactly when the copy_subdir list of the *parent node*
-   (the index.md one level up from the directory being listed) names it *)
-Theorem skip_as_coded proj pc loc d es nd n des :
+(* a sub-directory becomes a sub-tree exactly when the index.md of its own directory does not
+   name it in copy_subdir (own metadata, else the project list) and it has a usable index.md *)
+Theorem copy_subdir_skip proj pc loc d es nd n des :
   NoDup (map ename es) ->
   gpt proj pc loc (Dir d es) = RNode nd ->
   find_entry n es = Some (Dir n des) -> visible n = true -> n <> idx ->
   (In n (map n_name (n_subs nd)) <->
-   in_opt n pc = false /\
+   str_in n (n_copy nd) = false /\
    exists x, gpt proj (Some (n_copy nd)) (loc ++ [n]) (Dir n des) = RNode x).
 Proof.
   intros Hnd G FE Hvis Hni.
@@ -1319,7 +1333,7 @@ Proof.
     apply in_merged; auto. apply find_entry_name in FE as [_ FE].
     change n with (ename (Dir n des)). now apply in_map. }
   unfold yields_page. rewrite Hvis, FE. simpl andb.
-  destruct (in_opt n pc); simpl.
+  destruct (str_in n (n_copy nd)); simpl.
   - split; [intros [_ H]; discriminate|intros [H _]; discriminate].
   - destruct (gpt proj (Some (n_copy nd)) (loc ++ [n]) (Dir n des)) as [| |x].
     + split; [intros [_ H]; discriminate|intros [_ [x H]]; discriminate].
@@ -1327,32 +1341,7 @@ Proof.
     + split; eauto.
 Qed.
 
-(* as documented: skipped exactly when the index.md of its own directory names it *)
-Definition skip_documented (proj : list str) (pc : option (list str)) (loc : list str)
-           (d : str) (es : list entry) (nd : node) (n : str) (des : list entry) : Prop :=
-  In n (map n_name (n_subs nd)) <->
-  str_in n (n_copy nd) = false /\
-  exists x, gpt proj (Some (n_copy nd)) (loc ++ [n]) (Dir n des) = RNode x.
-
-Definition copy_subdir_statement : Prop :=
-  forall proj pc loc d es nd n des,
-    NoDup (map ename es) ->
-    gpt proj pc loc (Dir d es) = RNode nd ->
-    find_entry n es = Some (Dir n des) -> visible n = true -> n <> idx ->
-    skip_documented proj pc loc d es nd n des.
-
-Theorem copy_subdir_partial proj pc loc d es nd n des :
-  NoDup (map ename es) ->
-  gpt proj pc loc (Dir d es) = RNode nd ->
-  find_entry n es = Some (Dir n des) -> visible n = true -> n <> idx ->
-  in_opt n pc = str_in n (n_copy nd) ->
-  skip_documented proj pc loc d es nd n des.
-Proof.
-  intros Hnd G FE Hvis Hni Hag. unfold skip_documented. rewrite <- Hag.
-  now apply (skip_as_coded proj pc loc d es nd n des).
-Qed.
-
-(* witnesses *)
+(* the former witnesses of the three repaired defects, kept as regression examples *)
 Definition T_ (n : string) : entry := File (s n) true [] [].
 Definition w_top_named : list entry :=
   [File idx true [] [s "images"]; Dir (s "images") [T_ "index.md"; T_ "p.md"]].
@@ -1363,63 +1352,27 @@ Definition w_gp : list entry :=
                   Dir (s "other") [File (s "o.txt") false [] []]]].
 Definition w_dotted : list entry := [T_ "index.md"; T_ "v1.2.md"; T_ "v1.md"].
 
-Lemma copy_subdir_refuted : ~ copy_subdir_statement.
-Proof.
-  intros H.
-  destruct (page_tree [] w_top_named) as [| |nd] eqn:G; [vm_compute in G; discriminate ..|].
-  assert (X : skip_documented [] None [] [] w_top_named nd (s "images") [T_ "index.md"; T_ "p.md"]).
-  { apply H; auto.
-    - apply nodup_names_iff. reflexivity.
-    - intros E. vm_compute in E. discriminate. }
-  vm_compute in G. injection G as <-.
-  destruct X as [X _]. destruct X as [X _].
-  - vm_compute. left. reflexivity.
-  - vm_compute in X. discriminate.
-Qed.
+Example regression_witnesses :
+  map snd (pages (page_tree [] w_gp)) =
+    [[s "index.html"]; [s "sub"; s "index.html"]; [s "sub"; s "images"; s "index.html"];
+     [s "sub"; s "images"; s "p.html"]] /\
+  map snd (pages (page_tree [] w_top_named)) = [[s "index.html"]] /\
+  map snd (pages (page_tree [] w_dotted)) = [[s "index.html"]; [s "v1.2.html"]; [s "v1.html"]].
+Proof. repeat split; reflexivity. Qed.
 
-(* the same rule makes pages disappear: the grandparent's list is consulted *)
-Definition mirror_statement : Prop :=
-  forall skip proj es,
-    wf_tree (Dir [] es) = true -> page_tree proj es <> RErr ->
-    pages (page_tree proj es) = spec_pages skip proj [] (Dir [] es).
-
-Lemma mirror_refuted_copy_subdir :
-  exists es, wf_tree (Dir [] es) = true /\ gp_lost [] None (Dir [] es) = true /\
-             plain_names (Dir [] es) = true /\ page_tree [] es <> RErr /\
-             forall skip, pages (page_tree [] es) <> spec_pages skip [] [] (Dir [] es).
-Proof.
-  exists w_gp. repeat split; try reflexivity.
-  - intros H. vm_compute in H. discriminate.
-  - intros skip H. apply (f_equal (@length _)) in H. vm_compute in H. discriminate.
-Qed.
-
-Lemma mirror_refuted_dotted :
-  exists es, wf_tree (Dir [] es) = true /\ regular [] None (Dir [] es) = true /\
-             plain_names (Dir [] es) = false /\ page_tree [] es <> RErr /\
-             (forall skip, pages (page_tree [] es) <> spec_pages skip [] [] (Dir [] es)) /\
-             ~ NoDup (map snd (pages (page_tree [] es))).
-Proof.
-  exists w_dotted. repeat split; try reflexivity.
-  - intros H. vm_compute in H. discriminate.
-  - intros skip H. vm_compute in H. discriminate.
-  - intros H. vm_compute in H. inversion H as [|? ? H1 H2]; subst.
-    inversion H2 as [|? ? H3 H4]; subst. apply H3. now left.
-Qed.
-
-Theorem mirror_partial skip proj es :
-  wf_tree (Dir [] es) = true -> regular proj None (Dir [] es) = true ->
-  plain_names (Dir [] es) = true -> page_tree proj es <> RErr ->
-  pages (page_tree proj es) = spec_pages skip proj [] (Dir [] es).
-Proof. intros. unfold page_tree. now apply (mirror_all skip proj (Dir [] es) [] es eq_refl). Qed.
+(* C17_mirror, full: for every page directory that get_page_tree accepts *)
+Theorem mirror_full proj es :
+  wf_tree (Dir [] es) = true -> page_tree proj es <> RErr ->
+  pages (page_tree proj es) = spec_pages only_copied proj [] (Dir [] es).
+Proof. intros. unfold page_tree. now apply (mirror_all proj (Dir [] es) [] es eq_refl). Qed.
 
 Theorem pages_nodup proj es :
-  wf_tree (Dir [] es) = true -> regular proj None (Dir [] es) = true ->
-  plain_names (Dir [] es) = true -> page_tree proj es <> RErr ->
+  wf_tree (Dir [] es) = true -> page_tree proj es <> RErr ->
   NoDup (map snd (pages (page_tree proj es))).
 Proof.
-  intros Hwf Hr Hp Hne.
-  rewrite (mirror_partial (fun _ => false) proj es Hwf Hr Hp Hne).
-  now apply (outs_ok_all (fun _ => false) proj (Dir [] es) [] es eq_refl []).
+  intros Hwf Hne.
+  rewrite (mirror_full proj es Hwf Hne).
+  now apply (outs_ok_all only_copied proj (Dir [] es) [] es eq_refl []).
 Qed.
 
 (* ------------------------------------------------------------------------------------------ *)
@@ -1433,8 +1386,7 @@ Definition ex_tree : list entry :=
                   Dir (s "more") [File idx true [] []; File (s "z.md") true [] []]]].
 
 Example ex_tree_hyps :
-  wf_tree (Dir [] ex_tree) = true /\ regular [] None (Dir [] ex_tree) = true /\
-  plain_names (Dir [] ex_tree) = true /\ page_tree [] ex_tree <> RErr /\
+  wf_tree (Dir [] ex_tree) = true /\ page_tree [] ex_tree <> RErr /\
   map snd (pages (page_tree [] ex_tree)) =
   [[s "index.html"]; [s "sub"; s "index.html"]; [s "sub"; s "deep.html"];
    [s "sub"; s "more"; s "index.html"]; [s "sub"; s "more"; s "z.html"];
@@ -1475,14 +1427,13 @@ Proof.
 Qed.
 
 Theorem files_copied_beside_spec proj es p :
-  wf_tree (Dir [] es) = true -> regular proj None (Dir [] es) = true ->
-  page_tree proj es <> RErr ->
-  In p (spec_copied [] (Dir [] es)) ->
+  wf_tree (Dir [] es) = true -> page_tree proj es <> RErr ->
+  In p (spec_copied proj [] (Dir [] es)) ->
   exists o, file_at p (f_files (writeout es (page_tree proj es))) = Some o /\
             (o = Copy p \/ exists src, o = Page src).
 Proof.
-  intros Hwf Hr Hne Hp.
-  destruct (copied_all proj (Dir [] es) [] es eq_refl None [] Hwf Hr Hne p Hp)
+  intros Hwf Hne Hp.
+  destruct (copied_all proj (Dir [] es) [] es eq_refl None [] Hwf Hne p Hp)
     as (n & f & Hn & Hf & ->).
   exact (files_copied_beside es (page_tree proj es) n f Hn Hf).
 Qed.
@@ -1723,7 +1674,6 @@ Proof.
   induction e as [|d0 es0 IH] using entry_ind'; intros d es E pc loc nd Hwf G; [discriminate|].
   injection E as -> ->.
   apply wf_dir in Hwf as [Hnd Hwf].
-  pose proof (subs_names proj pc loc es) as SN.
   rewrite gpt_dir in G. destruct (titled_index es) as [[ord cp]|]; [|discriminate].
   cbv zeta in G.
   set (copy := eff_copy proj cp) in *.
@@ -1731,7 +1681,7 @@ Proof.
   set (M := merged (ordered_of ord) (listing es)) in *.
   destruct (v_err _); [discriminate|]. injection G as <-.
   constructor.
-  - unfold sub. rewrite SN. apply filter_nodup. now apply merged_nodup.
+  - unfold sub. rewrite (subs_names proj (Some copy) loc es copy). apply filter_nodup. now apply merged_nodup.
   - apply Forall_forall. intros x Hx.
     apply in_v_subs_inv, in_map_iff in Hx as (n & Hv & Hn).
     assert (Hni : n <> idx).
@@ -1739,7 +1689,7 @@ Proof.
       apply filter_In in Hn as [_ Hn]. unfold not_idx in Hn.
       apply negb_true_iff, str_eqb_neq in Hn. congruence. }
     destruct (visible n) eqn:Hvis.
-    2:{ destruct (visit_name_invis proj pc loc es sub n Hvis) as [X|X]; congruence. }
+    2:{ destruct (visit_name_invis proj (Some copy) loc es sub n Hvis) as [X|X]; congruence. }
     rewrite visit_name_vis in Hv by auto.
     unfold sub in Hv. rewrite assoc_map_find in Hv.
     destruct (find_entry n es) as [y|] eqn:FE; [|discriminate].
@@ -1747,7 +1697,7 @@ Proof.
     destruct y as [f t o c|dn des]; simpl in En; subst.
     + destruct (is_md n); [|discriminate]. destruct t; [|discriminate].
       injection Hv as <-. left. simpl. auto.
-    + simpl in Hv. destruct (in_opt n pc); [discriminate|].
+    + simpl in Hv. destruct (str_in n copy); [discriminate|].
       destruct (gpt proj (Some copy) (loc ++ [n]) (Dir n des)) as [| |ndx] eqn:G; try discriminate.
       injection Hv as <-. right.
       pose proof (gpt_node_fields _ _ _ _ _ _ G) as (F1 & F2 & F3).
@@ -1944,7 +1894,7 @@ Example ex_order_and_skip :
      in_opt (s "sub") None = str_in (s "sub") (n_copy nd)) /\
   (exists des, find_entry (s "sub") ex_tree = Some (Dir (s "sub") des)) /\
   visible (s "sub") = true /\ s "sub" <> idx /\
-  In [s "notes.txt"] (spec_copied [] (Dir [] ex_tree)).
+  In [s "notes.txt"] (spec_copied [] [] (Dir [] ex_tree)).
 Proof.
   split; [apply nodup_names_iff; reflexivity|].
   split.
@@ -2045,7 +1995,7 @@ Proof.
   - apply in_flat_map in Hm as (x & Hx & Hm).
     apply in_v_subs_inv, in_map_iff in Hx as (n & Hv & Hn).
     destruct (visible n) eqn:Hvis.
-    2:{ destruct (visit_name_invis proj pc loc es sub n Hvis) as [X|X]; congruence. }
+    2:{ destruct (visit_name_invis proj (Some copy) loc es sub n Hvis) as [X|X]; congruence. }
     rewrite visit_name_vis in Hv by auto.
     unfold sub in Hv. rewrite assoc_map_find in Hv.
     destruct (find_entry n es) as [y|] eqn:FE; [|discriminate].
@@ -2054,7 +2004,7 @@ Proof.
     + destruct (is_md n); [|discriminate]. destruct t; [|discriminate].
       injection Hv as <-. simpl in Hm. destruct Hm as [<-|[]].
       exists [], es. simpl. rewrite app_nil_r, TI. repeat split; auto. discriminate.
-    + simpl in Hv. destruct (in_opt n pc); [discriminate|].
+    + simpl in Hv. destruct (str_in n copy); [discriminate|].
       destruct (gpt proj (Some copy) (loc ++ [n]) (Dir n des)) as [| |ndx] eqn:G; try discriminate.
       injection Hv as <-.
       rewrite Forall_forall in IH.
@@ -2076,8 +2026,9 @@ Lemma spec_copydirs_dir proj loc d es :
                             | _ => []
                             end) es
       ++ flat_map (fun x => match x with
-                            | Dir n _ => if visible n then spec_copydirs proj (loc ++ [n]) x
-                                         else []
+                            | Dir n _ =>
+                              if visible n && negb (str_in n (eff_copy proj cp))
+                              then spec_copydirs proj (loc ++ [n]) x else []
                             | File _ _ _ _ => []
                             end) es
   end.
@@ -2100,7 +2051,7 @@ Qed.
 
 Definition copydirs_at (proj : list str) (root : list entry) (e : entry) : Prop :=
   forall d es, e = Dir d es -> forall pc loc,
-    wf_tree e = true -> regular proj pc e = true -> gpt proj pc loc e <> RErr ->
+    wf_tree e = true -> gpt proj pc loc e <> RErr ->
     dir_at loc root = Some es ->
     forall p, In p (spec_copydirs proj loc e) ->
     exists n item es' sub p',
@@ -2112,15 +2063,15 @@ Definition copydirs_at (proj : list str) (root : list entry) (e : entry) : Prop 
 Lemma copydirs_all proj root e : copydirs_at proj root e.
 Proof.
   induction e as [|d0 es0 IH] using entry_ind';
-    intros d es E pc loc Hwf Hreg Hne Hroot p Hp; [discriminate|].
+    intros d es E pc loc Hwf Hne Hroot p Hp; [discriminate|].
   injection E as -> ->.
-  rewrite spec_copydirs_dir in Hp. rewrite gpt_dir in *. simpl in Hreg.
+  rewrite spec_copydirs_dir in Hp. rewrite gpt_dir in *.
   destruct (titled_index es) as [[ord cp]|] eqn:TI; [|destruct Hp].
   cbv zeta in *.
   set (copy := eff_copy proj cp) in *.
   set (sub := map (fun x => (ename x, gpt proj (Some copy) (loc ++ [ename x]) x)) es) in *.
   set (M := merged (ordered_of ord) (listing es)) in *.
-  destruct (v_err (map (visit_name proj pc loc es sub) M)) eqn:VE; [congruence|].
+  destruct (v_err (map (visit_name proj (Some copy) loc es sub) M)) eqn:VE; [congruence|].
   apply wf_dir in Hwf as [Hnd Hwf].
   unfold res_nodes. rewrite preorder_node.
   apply in_app_iff in Hp as [Hp|Hp]; [|apply in_app_iff in Hp as [Hp|Hp]].
@@ -2147,31 +2098,25 @@ Proof.
   - (* inside a sub-directory *)
     apply in_flat_map in Hp as (x & Hin & Hp).
     destruct x as [|n des]; [destruct Hp|].
-    destruct (visible n) eqn:Hvis; [|destruct Hp].
-    assert (TD : has_titled_index (Dir n des) = true).
-    { simpl. rewrite spec_copydirs_dir in Hp. destruct (titled_index des); auto; destruct Hp. }
-    pose proof (proj1 (forallb_forall _ _) Hreg _ Hin) as Hrx. simpl in Hrx.
-    change (match titled_index des with Some _ => true | None => false end)
-      with (has_titled_index (Dir n des)) in Hrx.
-    rewrite TD in Hrx. simpl in Hrx.
-    apply andb_true_iff in Hrx as [Hr1 Hr2]. apply andb_true_iff in Hr1 as [Hpc _].
-    apply negb_true_iff in Hpc.
+    destruct (visible n && negb (str_in n copy)) eqn:C; [|destruct Hp].
+    apply andb_true_iff in C as [Hvis Hpc]. apply negb_true_iff in Hpc.
     pose proof (find_entry_in es _ Hnd Hin) as FE. simpl in FE.
     assert (Hni : n <> idx).
     { intros ->. unfold titled_index in TI. rewrite FE in TI. discriminate. }
     assert (HM : In n M).
     { apply in_merged; auto. change n with (ename (Dir n des)). now apply in_map. }
-    assert (HV : In (visit_name proj pc loc es sub n) (map (visit_name proj pc loc es sub) M))
+    assert (HV : In (visit_name proj (Some copy) loc es sub n)
+                    (map (visit_name proj (Some copy) loc es sub) M))
       by now apply in_map.
     pose proof (v_err_false _ _ VE HV) as Hv.
-    rewrite visit_name_vis in HV, Hv by auto. rewrite FE, Hpc in HV, Hv.
+    rewrite visit_name_vis in HV, Hv by auto. simpl in_opt in HV, Hv. rewrite FE, Hpc in HV, Hv.
     unfold sub in HV, Hv. rewrite assoc_map_find, FE in HV, Hv. simpl in HV, Hv.
     rewrite Forall_forall in IH.
     assert (G : gpt proj (Some copy) (loc ++ [n]) (Dir n des) <> RErr).
     { intros G. rewrite G in Hv. congruence. }
     assert (Hroot' : dir_at (loc ++ [n]) root = Some des).
     { rewrite dir_at_app, Hroot. simpl. now rewrite FE. }
-    destruct (IH _ Hin n des eq_refl (Some copy) (loc ++ [n]) (Hwf _ Hin) Hr2 G Hroot' p Hp)
+    destruct (IH _ Hin n des eq_refl (Some copy) (loc ++ [n]) (Hwf _ Hin) G Hroot' p Hp)
       as (nd & item & es' & sb & p' & Hnd' & Rest).
     exists nd, item, es', sb, p'. split; [|exact Rest].
     destruct (gpt proj (Some copy) (loc ++ [n]) (Dir n des)) as [| |ndx];
@@ -2181,14 +2126,13 @@ Qed.
 
 (* Model against Spec: everything the Spec's spec_copydirs demands is there at the end *)
 Theorem files_copydirs_spec proj es p :
-  wf_tree (Dir [] es) = true -> regular proj None (Dir [] es) = true ->
-  page_tree proj es <> RErr ->
+  wf_tree (Dir [] es) = true -> page_tree proj es <> RErr ->
   In p (spec_copydirs proj [] (Dir [] es)) ->
   exists o, file_at p (f_files (writeout es (page_tree proj es))) = Some o /\
             (o = Copy p \/ exists src, o = Page src).
 Proof.
-  intros Hwf Hr Hne Hp.
-  destruct (copydirs_all proj es (Dir [] es) [] es eq_refl None [] Hwf Hr Hne eq_refl p Hp)
+  intros Hwf Hne Hp.
+  destruct (copydirs_all proj es (Dir [] es) [] es eq_refl None [] Hwf Hne eq_refl p Hp)
     as (n & item & es' & sb & p' & Hn & Hi & Hd & Hf & Hp' & -> & Hor).
   assert (X : has (n_loc n ++ p') (writeout es (page_tree proj es))).
   { destruct Hor as [Hidx|Hti].
@@ -2210,7 +2154,7 @@ Definition ex_leafcopy : list entry :=
    Dir (s "assets") [File (s "pic.png") false [] []; Dir (s "deep") [File (s ".keep") false [] []]]].
 
 Example ex_leafcopy_ok :
-  wf_tree (Dir [] ex_leafcopy) = true /\ regular [] None (Dir [] ex_leafcopy) = true /\
+  wf_tree (Dir [] ex_leafcopy) = true /\
   page_tree [] ex_leafcopy <> RErr /\
   spec_copydirs [] [] (Dir [] ex_leafcopy) =
     [[s "assets"; s "pic.png"]; [s "assets"; s "deep"; s ".keep"];
